@@ -15,7 +15,7 @@
     regression examples. *)
 From Coq Require Import List ZArith Bool.
 From V Require Import Gen.Params Lib.Hex SendStream.Model SendStream.ProofsBase SendStream.ProofsInv
-  SendStream.ProofsCov SendStream.ProofsOut SendStream.ProofsFin SendStream.Theorems StreamE2E.Model StreamE2E.Compose
+  SendStream.ProofsCov SendStream.ProofsOut SendStream.ProofsFin SendStream.ProofsCnt SendStream.Theorems StreamE2E.Model StreamE2E.Compose
   StreamE2E.DgModel StreamE2E.DgProofs.
 Import ListNotations.
 Open Scope Z_scope.
@@ -61,6 +61,20 @@ Theorem C01_sender_coverage :
   numOut s = zlen (outstanding s).
 Proof. exact sender_coverage. Qed.
 Print Assumptions C01_sender_coverage.
+
+(** numOutstandingFrames is exact in EVERY history (reset or not): it equals the number of STREAM
+    frames in flight that still count (none once the stream was reset without reliable size) plus
+    the RESET_STREAM(_AT) frames in flight that carry the current reliable size. Hence the panics
+    "numOutStandingFrames negative" are unreachable and, with pop budgets of at most one packet
+    (all the framer ever offers), the code never panics. (Refuted before the repair of
+    SetReliableBoundary; regression example C01_panic_witness_repaired below.) *)
+Theorem C01_sender_no_panic :
+  forall (sid0 : Z) (rsa : bool) (swin cwin : Z) (ops : list op),
+  let s := fst (run (init sid0 rsa swin cwin) ops) in
+  late s = false -> (forall mb, In (OPop mb) ops -> mb <= ssMaxPacketBufferSize) ->
+  panicked s = false /\ numOut s = cnt_stream s + cnt_reset s /\ 0 <= numOut s.
+Proof. exact sender_no_panic. Qed.
+Print Assumptions C01_sender_no_panic.
 
 (** End to end: for every sender history and every delivery sequence drawn from the emitted frames
     (loss, duplication, reordering; reads of any sizes interleaved), the concatenation of the reads
